@@ -158,6 +158,12 @@ def interfere(obj) -> None:
     """other uses of the XML adapter in the same process before the round trip under test (see c03.interfere)"""
     from basyx.aas import model
     from basyx.aas.adapter.xml import xml_deserialization as D, write_aas_xml_file
+    # a bare data element read in stripped mode first (the HTTP adapter's level=core does this): reaches the data element
+    # constructors, which a stripped read of a whole identifiable never does
+    warm = model.Property("warm", model.datatypes.String, "v", qualifier=[model.Qualifier("q", model.datatypes.String, "x")])
+    for failsafe in (True, False):
+        D.read_aas_xml_element(io.BytesIO(xml_bytes(warm)), D.XMLConstructables.SUBMODEL_ELEMENT, failsafe=failsafe, stripped=True)
+        D.read_aas_xml_element(io.BytesIO(xml_bytes(warm)), D.XMLConstructables.PROPERTY, failsafe=failsafe, stripped=True)
     store = model.DictObjectStore([obj]) if isinstance(obj, model.Identifiable) else model.DictObjectStore()
     buf = io.BytesIO(); write_aas_xml_file(buf, store); full = buf.getvalue()
     single = xml_bytes(obj)
